@@ -59,6 +59,26 @@ async fn verif_replay_model_roundtrip() {
             if m.id != "m3" && describe(m) != describe(&back) { bad.push(format!("REPLAY-FAIL model {}: the tree of the {fmt} round-tripped model differs: {:?} / {:?}", m.id, describe(m), describe(&back))); }
         }
     }
+    // "a deployed model is stored and handed back unchanged": deploy histories on the real engine (first deploy; a re-deploy with a changed name and a
+    // changed step list): the row handed back carries the id, the name, the text and a version one higher of exactly the model deployed last
+    {
+        let engine = crate::Engine::new().start();
+        let executor = engine.executor();
+        let ex = executor.model();
+        let v1 = Workflow::new().with_id("vdep").with_name("purchase order").with_step(|s| s.with_id("s1"));
+        let v2 = Workflow::new().with_id("vdep").with_name("purchase order (two approvals)").with_step(|s| s.with_id("s1")).with_step(|s| s.with_id("s2"));
+        for (k, w) in [&v1, &v2, &v2].iter().enumerate() {
+            if let Err(e) = ex.deploy(w) { bad.push(format!("REPLAY-FAIL deploy #{} of model vdep is refused: {e}", k + 1)); continue; }
+            match ex.get("vdep", "text") {
+                Err(e) => bad.push(format!("REPLAY-FAIL model vdep is not handed back after deploy #{}: {e}", k + 1)),
+                Ok(m) => {
+                    if m.name != w.name { bad.push(format!("REPLAY-FAIL after deploy #{} the stored model is named `{}`, the model deployed is named `{}`", k + 1, m.name, w.name)); }
+                    if m.ver != (k as i32 + 1) { bad.push(format!("REPLAY-FAIL after deploy #{} the stored version is {}", k + 1, m.ver)); }
+                    match Workflow::from_yml(&m.data) { Ok(back) if serde_json::to_value(&back).ok() == serde_json::to_value(w).ok() => {}, other => bad.push(format!("REPLAY-FAIL after deploy #{} the stored text is not the model deployed: {:?}", k + 1, other.map(|b| b.name))) }
+                }
+            }
+        }
+    }
     // TimeoutLimit
     for (u, letter, secs) in [("Second", "s", 1i64), ("Minute", "m", 60), ("Hour", "h", 3600), ("Day", "d", 86400)] {
         for n in [0i64, 1, 2, 15, 59, 60, 90, 1000, 86400, 123456] {
